@@ -42,6 +42,19 @@ func genC05(t *rapid.T) interface{} {
 		return sc
 	}
 	sc := genScenario(t, &profC05)
+	if sc.Cfg.PtyRows == 0 && sc.Cfg.Width == 0 && len(sc.Bars) > 0 && rapid.IntRange(0, 11).Draw(t, "tallframe") == 0 {
+		// a buffer output takes as many rows as it is wide (80): extender rows bring
+		// the frame to just below, at and just above that
+		target := rapid.SampledFrom([]int{79, 80, 80, 81}).Draw(t, "tallrows")
+		sum := 0
+		for _, b := range sc.Bars {
+			sum += 1 + b.ExtRows
+		}
+		if sum < target {
+			i := rapid.IntRange(0, len(sc.Bars)-1).Draw(t, "tallbar")
+			sc.Bars[i].ExtRows += target - sum
+		}
+	}
 	if sc.Cfg.Refresh == "manual" {
 		excludedKnown += int64(repairQueue(sc))
 	}
@@ -226,6 +239,18 @@ func runC05(ci interface{}) Result {
 	}
 	if sim.OK && sim.Clipped {
 		r.Classes = append(r.Classes, "clipped")
+	}
+	if sim.OK && sc.Cfg.PtyRows == 0 {
+		for _, mf := range sim.Frames {
+			n := 0
+			for _, k := range mf.Rows {
+				n += k
+			}
+			if n == mf.Height {
+				r.Classes = append(r.Classes, "frame-fills-buffer-height")
+				break
+			}
+		}
 	}
 	if sim.OK && sim.Errored {
 		r.Classes = append(r.Classes, "render-fault")
